@@ -9,6 +9,7 @@
 //	                                       dataAckStruct.Marshal                    -> hex32
 //	US hex                                 sessionStruct.Unmarshal                  -> OK fields | ERR
 //	UD hex                                 dataAckStruct.Unmarshal                  -> OK fields | ERR
+//	RK s1 .. sn                            Session.input on segments keyed by salts -> salt of the reply key after each
 //
 // Oracle-only evaluations (the crypto primitives are uninterpreted in the model; conformance of
 // those is by vectors): key derivation, user hint, complete TCP streams and UDP datagrams emitted by
@@ -1250,12 +1251,14 @@ func constants() {
 
 func main() {
 	r = vh.Start("c09")
-	r.Rep.Rule = "Boundary corpora first (every protocol byte 0..255 through classification, both Marshal and both Unmarshal functions; one-field-at-a-time patterns at 0/1/max/byte-order-revealing values for every field of the three layouts; nonce carries into every byte position and the all-0xff wrap), then random valid metadata, a separate malformed stream (wrong type, lengths around the limits, bad mode/rotation/mask population/extracted length, wrong input length), then interop: TCP streams and UDP datagrams emitted by mieru's real writeOneSegment under keys of all three slots at fixed and random instants are decoded by the document-only refcodec under random chunking; refcodec-encoded streams/datagrams (paddings 0..255, all modes, valid rotations, both padding polarities, payload 0..max, piggyback 0..1024) are read by the real readOneSegment of a server (through the real user registry) and of a client; the low-entropy codec is compared byte for byte in both directions; key derivation, hashed password, user hint and the UDP-associate frame by vectors. A class is non-trivial when it names (kind, protocol type, field or boundary class, outcome) resp. (direction, type, payload present, padding classes)."
+	r.Rep.Rule = "Boundary corpora first (every protocol byte 0..255 through classification, both Marshal and both Unmarshal functions; one-field-at-a-time patterns at 0/1/max/byte-order-revealing values for every field of the three layouts; nonce carries into every byte position and the all-0xff wrap), then random valid metadata, a separate malformed stream (wrong type, lengths around the limits, bad mode/rotation/mask population/extracted length, wrong input length), then interop: TCP streams and UDP datagrams emitted by mieru's real writeOneSegment under keys of all three slots at fixed and random instants are decoded by the document-only refcodec under random chunking; refcodec-encoded streams/datagrams (paddings 0..255, all modes, valid rotations, both padding polarities, payload 0..max, piggyback 0..1024) are read by the real readOneSegment of a server (through the real user registry) and of a client; the low-entropy codec is compared byte for byte in both directions; key derivation, hashed password, user hint and the UDP-associate frame by vectors; the user hint is also required on the k-th nonce (k = 1..5) of a stateless and a stateful cipher and of client and server-reply datagrams written by the real PacketUnderlay under every kind of nonce pattern (none, random, printable, subset, fixed; applyToAllUDPPacket true / false / unset; implicit patterns derived from traffic-pattern seeds). A class is non-trivial when it names (kind, protocol type, field or boundary class, outcome) resp. (direction, type, payload present, padding classes)."
 	constants()
 	classification()
 	nonceIncrement()
 	metadata()
 	keysAndHint()
+	noncePatterns()
+	replyKeys()
 	lowEntropy()
 	frames()
 	segments()
